@@ -127,7 +127,10 @@ _BAD_BOUNDS = [(["i", 5], ["i", 5]), (["i", 10], ["i", 0]), (["f", _fl(1.0)], ["
 _OPTS = [["a", "b", "c"], ["AZ", "DE", "MD", "CA", "AK", "MD", "VA"], ["x"], [], ["", "a"], ["km", "m", "0"],
          ["abc", "a.b", "ünï"]]
 _PRIOS = [["i", 1], ["f", _fl(1.0)], ["i", 2], ["f", _fl(2.0)], ["f", _fl(0.5)], ["i", 3], ["i", -1],
-          ["i", 1], ["i", 2]]
+          ["i", 1], ["i", 2],
+          # different but nearly equal priorities: still ordered, no tie
+          ["f", _fl(0.1 + 0.2)], ["f", _fl(0.3)], ["f", _fl(1.0 + 5e-10)], ["f", _fl(2.0 - 4e-16)], ["f", _fl(3e-10)],
+          ["f", _fl(2e-10)], ["f", _fl(0.0)], ["i", 2 ** 53], ["i", 2 ** 53 + 1]]
 _BAD_KEYS = [["s", ""], ["s", "a.b"], ["i", 3], ["n"], ["s", "."]]
 _BAD_NAMES = [["s", ""], ["i", 3], ["n"]]
 _BAD_PRIOS = [["s", "p"], ["n"], ["l", []]]
